@@ -576,9 +576,9 @@ def check_rmw_tag_discipline(ck, P, rid):
     targets = [(f, n, r, nd) for (n, r, nd) in targets]
     # the coast forward re-dispatches history entries: only untagged ones are events
     se = P.fn("silent_execution")
-    for c in se.walk():
-        if c.k == "CallExpr" and not c.callee and X.show(c.children[0]) == "global_config.dispatcher":
-            targets.append((se, c, "redispatch", {"untagged"}))
+    from .rules_rollback import dispatch_points
+    for c, inner, helper in dispatch_points(P, se):
+        targets.append((se, c, "redispatch", {"untagged"}))
     for f, node, role, need in targets:
         inst = "tag:%s@%s" % (role, f.name)
         from .rules_index import ordered_paths
